@@ -39,3 +39,30 @@ func VerifSetSuppress(m *Merged, on bool) { m.suppressDeletions = on }
 func VerifCompactRange(st *Stack, first, last int, exp *LogExpirationConfig) (bool, error) {
 	return st.compactRange(first, last, exp)
 }
+
+// VerifBwCap builds a block writer that already holds n restart points (and n
+// entries), adds one more ref record and finishes the block: whether the record
+// was accepted, the restart count afterwards, the length of the finished block
+// and its last two bytes (the 16-bit restart count as stored).
+func VerifBwCap(n int, interval int, key string) (ok bool, restarts int, finLen int, stored int) {
+	size := 4 + 16 + 64 + 3*(n+2) + 2
+	bw := &blockWriter{
+		buf:             make([]byte, size),
+		blockSize:       uint32(size),
+		headerOff:       0,
+		restartInterval: interval,
+		hashSize:        20,
+		next:            4 + 16,
+		restarts:        make([]uint32, n),
+		entries:         n,
+		lastKey:         "",
+	}
+	bw.buf[0] = blockTypeRef
+	for i := range bw.restarts {
+		bw.restarts[i] = 4
+	}
+	ok = bw.add(&RefRecord{RefName: key})
+	restarts = len(bw.restarts)
+	data := bw.finish()
+	return ok, restarts, len(data), int(data[len(data)-2])<<8 | int(data[len(data)-1])
+}
